@@ -46,9 +46,11 @@ def p_year(t):
 def run(ctx):
     rng = ctx.rng
     docs = []
+    G5.FIRST_MARKER = 0.1
     for i in range(ctx.n(5000, 60000)):
         d = G5.document(rng, with_files=(True if i % 3 == 0 else False if i % 3 == 1 else None))
         docs.append((d, G5.render(rng, d)))
+    G5.FIRST_MARKER = 0.0
     fails = ctx.prop('prop:dep5', docs, p_doc)
     years = list(G.all_strings(['1', '9', '-', ',', ' ', 'a', '(', '٢', '²'], ctx.n(4, 5)))
     ctx.exhaustive.append('all %d strings of length <= %d over 1 9 - , space a ( and two non-ASCII digits through is_year_range' % (len(years), ctx.n(4, 5)))
